@@ -22,7 +22,7 @@ theorem c07_protocol_add : canon (lookupMethod Gen.repoProtocol "AddRuleSet") = 
 theorem c07_protocol_update : canon (lookupMethod Gen.repoProtocol "UpdateRuleSet") = writerProtocol := by decide
 theorem c07_protocol_delete : canon (lookupMethod Gen.repoProtocol "DeleteRuleSet") = writerProtocol := by decide
 theorem c07_protocol_find : canon (lookupMethod Gen.repoProtocol "FindRule") = readerProtocol := by decide
-theorem c07_protocol_mutexes : Gen.repoProtocolMutexes = ["knownRulesMutex", "rulesTreeMutex"] := by decide
+theorem c07_protocol_mutexes : Gen.repoProtocolMutexes = ["$K", "$T"] := by decide
 
 /-- the transitions of the machine, read as source-level events, are that protocol -/
 theorem c07_edges_are_protocol : edgesAsProtocol = writerProtocol ∧ readerEdgesAsProtocol = readerProtocol := by
